@@ -22,11 +22,20 @@ DepthOk(r, k) == ~Judged(r, k) \/ r.depth[k] = r.ref_depth[k]
 NormalOk(r, k) == ~Judged(r, k) \/ r.ref_depth[k] = 0 \/ r.depth[k] # r.ref_depth[k]
                   \/ \A c \in 1..3 : SameZ(r.normal[k][c], r.ref_normal[k][c])
 
+(* heightmaps of the voxel sets emitted by the Render3D.tla generator: the expected depth of every column is     *)
+(* recomputed here from the voxel set itself (vbits in VoxSeq order: x fastest, then y, then z, vt0 x vt0 per layer) *)
+VoxBit(r, x, y, z) == LET i == 1 + x + y * r.vt0 + z * r.vt0 * r.vt0 IN i <= Len(r.vbits) /\ r.vbits[i] = 1
+RECURSIVE TopOf(_, _, _, _)
+TopOf(r, x, y, z) == IF z < 0 THEN 0 ELSE IF VoxBit(r, x, y, z) THEN z + 1 ELSE TopOf(r, x, y, z - 1)
+ExactOk(r) == "vbits" \notin DOMAIN r \/
+              \A k \in 1..(r.w * r.h) : r.depth[k] = TopOf(r, (k - 1) % r.w, (k - 1) \div r.w, r.d - 1)
+
 Fails(r) ==
   IF ~r.ok THEN {"no-image"} ELSE
   IF Len(r.depth) # r.w * r.h THEN {"size"} ELSE
      (IF \A k \in 1..Len(r.depth) : DepthOk(r, k) THEN {} ELSE {"depth"})
   \cup (IF \A k \in 1..Len(r.depth) : NormalOk(r, k) THEN {} ELSE {"normal"})
+  \cup (IF ExactOk(r) THEN {} ELSE {"model-height"})
 
 Init == l = 1
 Next == /\ l <= Len(Rec)
